@@ -2,8 +2,42 @@ package c19
 
 import (
 	"fmt"
+	"io"
 	"math/rand"
+	"strings"
 )
+
+// Optional interfaces of a writer beside io.Writer (bits of behaviour.Ifs); the names are those of
+// spec/Writer.tla (w.ifs).
+const (
+	ifStringWriter = 1 << iota
+	ifByteWriter
+	ifReaderFrom
+	ifAll = ifStringWriter | ifByteWriter | ifReaderFrom
+)
+
+// Methods through which bytes reach the writer (runRec.Via; WriterTrace!Method).
+const (
+	viaWrite = iota
+	viaWriteString
+	viaWriteByte
+	viaReadFrom
+)
+
+// ifaceNames lists the interfaces of a set, in the spelling of the specification.
+func ifaceNames(ifs int) []string {
+	n := []string{}
+	if ifs&ifStringWriter != 0 {
+		n = append(n, "StringWriter")
+	}
+	if ifs&ifByteWriter != 0 {
+		n = append(n, "ByteWriter")
+	}
+	if ifs&ifReaderFrom != 0 {
+		n = append(n, "ReaderFrom")
+	}
+	return n
+}
 
 // behaviour is what the instrumented writer is asked to do; the same fields
 // as the writer record of spec/Writer.tla.
@@ -12,10 +46,18 @@ type behaviour struct {
 	Sticky bool
 	Piece  int // 0: one piece; p>0: re-chunk in pieces of p; -1: random pieces (never mode only)
 	Cap    int // capacity (whole/prefix), per-Write limit (silent), unused (never)
+	Ifs    int // optional interfaces the writer implements beside io.Writer (ifStringWriter | ...)
 }
 
+// key identifies the behaviour of the sink (the interface set is not part of it: the required outcome
+// of Writer.tla as written is the same for every interface set).
 func (b behaviour) key(src int) string {
 	return fmt.Sprintf("%d|%s|%v|%d|%d", src, b.Mode, b.Sticky, b.Piece, b.Cap)
+}
+
+// fullKey also distinguishes the interface sets.
+func (b behaviour) fullKey(src int) string {
+	return fmt.Sprintf("%s|ifs%d", b.key(src), b.Ifs)
 }
 
 // class is the part of a behaviour that goes into a failure signature.
@@ -26,6 +68,9 @@ func (b behaviour) class() string {
 	}
 	if b.Piece != 0 {
 		s += "+rechunk"
+	}
+	if b.Ifs != 0 {
+		s += "@" + strings.Join(ifaceNames(b.Ifs), "+")
 	}
 	return s
 }
@@ -38,9 +83,12 @@ func (e *callErr) Error() string {
 	return fmt.Sprintf("instrumented writer: Write call %d failed", e.idx)
 }
 
-type call struct{ off, acc, err int }
+type call struct{ via, off, acc, err int }
 
-// iw is the instrumented io.Writer handed to Module.WriteTo.
+// iw is the core of the instrumented writer handed to Module.WriteTo: sink, behaviour and the log of
+// the calls made through ANY method.  It has no exported I/O method itself; asWriter wraps it in a
+// type whose method set is exactly io.Writer plus the optional interfaces asked for, so that the
+// type assertions of the code under test see the interface set of the behaviour.
 type iw struct {
 	b      behaviour
 	cap    int
@@ -88,8 +136,9 @@ func (w *iw) sinkWrite(p []byte) (int, bool) {
 	}
 }
 
-// Write implements io.Writer and logs the call.
-func (w *iw) Write(p []byte) (int, error) {
+// offer is one call of the writer through method via with the bytes p: every method feeds the same
+// sink, with the same capacity and failure behaviour, and is logged.
+func (w *iw) offer(via int, p []byte) (int, error) {
 	idx := len(w.log) + 1
 	acc, fail := 0, false
 	if w.b.Piece == 0 {
@@ -113,7 +162,7 @@ func (w *iw) Write(p []byte) (int, error) {
 			rest = rest[q:]
 		}
 	}
-	c := call{off: len(p), acc: acc}
+	c := call{via: via, off: len(p), acc: acc}
 	var err error
 	if fail {
 		e := &callErr{idx: idx}
@@ -137,4 +186,101 @@ func (w *iw) errIdentity(err error) int {
 		}
 	}
 	return -1
+}
+
+// The method sets.  mW..mR each contribute one method; the eight writer types combine them.
+type mW struct{ c *iw }
+type mS struct{ c *iw }
+type mB struct{ c *iw }
+type mR struct{ c *iw }
+
+func (m mW) Write(p []byte) (int, error)        { return m.c.offer(viaWrite, p) }
+func (m mS) WriteString(s string) (int, error) { return m.c.offer(viaWriteString, []byte(s)) }
+func (m mB) WriteByte(b byte) error {
+	_, err := m.c.offer(viaWriteByte, []byte{b})
+	return err
+}
+
+// ReadFrom reads r to its end and offers what it read in one piece (as bufio.Writer does with a full
+// buffer); it returns the bytes accepted.
+func (m mR) ReadFrom(r io.Reader) (int64, error) {
+	data, rerr := io.ReadAll(r)
+	n, err := m.c.offer(viaReadFrom, data)
+	if err == nil {
+		err = rerr
+	}
+	return int64(n), err
+}
+
+type (
+	wPlain struct{ mW }
+	wS     struct {
+		mW
+		mS
+	}
+	wB struct {
+		mW
+		mB
+	}
+	wSB struct {
+		mW
+		mS
+		mB
+	}
+	wR struct {
+		mW
+		mR
+	}
+	wSR struct {
+		mW
+		mS
+		mR
+	}
+	wBR struct {
+		mW
+		mB
+		mR
+	}
+	wSBR struct {
+		mW
+		mS
+		mB
+		mR
+	}
+)
+
+// asWriter returns c as an io.Writer whose dynamic type has exactly the optional interfaces ifs.
+func asWriter(c *iw, ifs int) io.Writer {
+	w, s, b, r := mW{c}, mS{c}, mB{c}, mR{c}
+	switch ifs & ifAll {
+	case 0:
+		return wPlain{w}
+	case ifStringWriter:
+		return wS{w, s}
+	case ifByteWriter:
+		return wB{w, b}
+	case ifStringWriter | ifByteWriter:
+		return wSB{w, s, b}
+	case ifReaderFrom:
+		return wR{w, r}
+	case ifStringWriter | ifReaderFrom:
+		return wSR{w, s, r}
+	case ifByteWriter | ifReaderFrom:
+		return wBR{w, b, r}
+	}
+	return wSBR{w, s, b, r}
+}
+
+// checkMethodSets verifies that asWriter gives each interface set exactly its methods ("" if so).
+func checkMethodSets() string {
+	for ifs := 0; ifs <= ifAll; ifs++ {
+		w := asWriter(&iw{}, ifs)
+		_, s := w.(io.StringWriter)
+		_, b := w.(io.ByteWriter)
+		_, r := w.(io.ReaderFrom)
+		if s != (ifs&ifStringWriter != 0) || b != (ifs&ifByteWriter != 0) || r != (ifs&ifReaderFrom != 0) {
+			return fmt.Sprintf("interface set %v: StringWriter=%v ByteWriter=%v ReaderFrom=%v", ifaceNames(ifs), s, b, r)
+		}
+	}
+	return ""
 }
